@@ -222,7 +222,7 @@ func explore() {
 			}
 		}
 		leakedTotal += ep.LeakedGoroutines
-		if leakedTotal > 400 && !leak {
+		if leakedTotal > 150 && !leak {
 			// hertz goroutines that never end (one FS cache cleaner per FS object): recycle the process
 			res.Leak = true
 			break
